@@ -222,7 +222,7 @@ def run_ties(spec):
 
 
 SUBS = [
-    MachineSub('history', Store, quick=(300, 12), thorough=(1500, 20),
+    MachineSub('history', Store, quick=(280, 12), thorough=(500, 16),
                rule='histories of publish (sparse or dense versions over 40 dates, stamps non-decreasing over <= 6 instants, ties frequent) / re-merge / read at a probe / read at every probe '
                     '(12h before, on, and after every stamp) with what in {-1, 0}; oracle: per-date publication log (NaN keeps the previous value, same stamp -> last merged, '
                     'first stamp > T -> absent). non-trivial = reads happened and some date has same-stamp publications with different values, a reversion, or a NaN after a value',
